@@ -394,9 +394,15 @@ def sweep_variants(plan, twin, tier):
 def matrix_plans(tree, seed, tier):
     """Plans whose probe carries every API fragment and is built, in both packagings, under all six
     compiler x standard configurations (the incidental sample of C20's toolchain clause)."""
-    n = 2 if tier == "quick" else 12
+    n = 3 if tier == "quick" else 12
     tcs = all_toolchains()
     plans = []
+    # Fragments that are about acceptance (is this a constant expression, is this call well-formed)
+    # end the build of the whole probe under the configuration that rejects them, and whatever the
+    # other fragments would have printed there is never compared (seen with S65: the rejection of
+    # a constexpr use under clang++ hid the sign of a zero).  Every third matrix plan therefore
+    # carries only the fragments that are about values.
+    values_only = [f for f in apisurface.names() if "constexpr" not in f and "accept" not in f]
     for i in range(n):
         rng = rng_for(seed, "matrix", i)
         units = rng.sample(tree.units, min(3 if tier == "quick" else rng.choice((2, 4, 6)), len(tree.units)))
@@ -404,7 +410,7 @@ def matrix_plans(tree, seed, tier):
         # every other one is the plain case: the default package, the umbrella header first and
         # au/io.hh after it (what a program that just includes the library looks like); the rest
         # have a selection and a seeded include order
-        plain = i % 2 == 1
+        plain = i % 2 == 1 or i % 3 == 2
         if plain:
             units, consts = [], []
         plans.append({
@@ -415,7 +421,7 @@ def matrix_plans(tree, seed, tier):
             "env": {"listdir": {}, "listdir_default": _listdir_spec(rng), "extra_entries": {}, "clock": ["2026-09-26T12:00:00"], "git": "ok:matrix", "stdout_mode": "block", "stdout_bufsize": 4096, "crlf": False},
             "faults": [],
             "toolchain": {"a": list(tcs[i % len(tcs)]), "matrix": True},
-            "probe": {"include_order": None if plain else rng.randrange(1 << 30), "api": apisurface.names(), "user_macros": i % 2 == 0},
+            "probe": {"include_order": None if plain else rng.randrange(1 << 30), "api": values_only if i % 3 == 2 else apisurface.names(), "user_macros": i % 2 == 0 and i % 3 != 2},
         })
     return plans
 
